@@ -133,9 +133,9 @@ theorem Grp.addCustPub_refused {g : Grp} {x : Sid} (h : (g.addCustPub x).2.1 = f
   unfold addCustPub at h ⊢; split <;> simp_all
 theorem Grp.startRtpPub_refused {g : Grp} {x : Sid} (h : (g.startRtpPub Code.fixed x).2.1 = false) : (g.startRtpPub Code.fixed x).1 = g := by
   unfold startRtpPub at h ⊢; split <;> simp_all
-theorem Grp.addRtmpPull_refused {g : Grp} {x : Sid} (h : (g.addRtmpPull x).2.1 = false) : (g.addRtmpPull x).1 = g := by
+theorem Grp.addRtmpPull_refused {code : Code} {g : Grp} {x : Sid} (h : (g.addRtmpPull code x).2.1 = false) : (g.addRtmpPull code x).1 = g := by
   unfold addRtmpPull at h ⊢; split <;> simp_all
-theorem Grp.addRtspPull_refused {g : Grp} {x : Sid} (h : (g.addRtspPull x).2.1 = false) : (g.addRtspPull x).1 = g := by
+theorem Grp.addRtspPull_refused {code : Code} {g : Grp} {x : Sid} (h : (g.addRtspPull code x).2.1 = false) : (g.addRtspPull code x).1 = g := by
   unfold addRtspPull at h ⊢; split <;> simp_all
 
 theorem Grp.holds_addRtmpPub {g : Grp} {x : Sid} (h : (g.addRtmpPub x).2.1 = true) (sl : Slot) (y : Sid) :
@@ -170,20 +170,20 @@ theorem Grp.holds_startRtpPub {g : Grp} {x : Sid} (h : (g.startRtpPub Code.fixed
     have hn := slots_of_not_hasIn (g := g) (by simpa [Code.fixed] using hin)
     cases sl <;> simp [holds, addIn, hn, eq_comm]
 
-theorem Grp.holds_addRtmpPull {g : Grp} {x : Sid} (h : (g.addRtmpPull x).2.1 = true) (sl : Slot) (y : Sid) :
-    (g.addRtmpPull x).1.holds sl y ↔ (g.holds sl y ∨ (sl = .pullRtmp ∧ y = x)) := by
+theorem Grp.holds_addRtmpPull {code : Code} {g : Grp} {x : Sid} (h : (g.addRtmpPull code x).2.1 = true) (sl : Slot) (y : Sid) :
+    (g.addRtmpPull code x).1.holds sl y ↔ (g.holds sl y ∨ (sl = .pullRtmp ∧ y = x)) := by
   unfold addRtmpPull at h ⊢; split
   · simp_all
   · rename_i hin
-    have hn := slots_of_not_hasIn (g := g) (by simpa using hin)
+    have hn := slots_of_not_hasIn (g := g) (not_hasIn_of_pullRefusal hin)
     cases sl <;> simp [holds, addIn, hn, eq_comm]
 
-theorem Grp.holds_addRtspPull {g : Grp} {x : Sid} (h : (g.addRtspPull x).2.1 = true) (sl : Slot) (y : Sid) :
-    (g.addRtspPull x).1.holds sl y ↔ (g.holds sl y ∨ (sl = .pullRtsp ∧ y = x)) := by
+theorem Grp.holds_addRtspPull {code : Code} {g : Grp} {x : Sid} (h : (g.addRtspPull code x).2.1 = true) (sl : Slot) (y : Sid) :
+    (g.addRtspPull code x).1.holds sl y ↔ (g.holds sl y ∨ (sl = .pullRtsp ∧ y = x)) := by
   unfold addRtspPull at h ⊢; split
   · simp_all
   · rename_i hin
-    have hn := slots_of_not_hasIn (g := g) (by simpa using hin)
+    have hn := slots_of_not_hasIn (g := g) (not_hasIn_of_pullRefusal hin)
     cases sl <;> simp [holds, addIn, hn, eq_comm]
 
 /-! #### departures -/
@@ -314,15 +314,17 @@ theorem Grp.holds_startPull (g : Grp) (r : Bool) (retry : Option Nat) (n : Sid) 
     (g.startPull r retry n).1.holds sl y ↔ g.holds sl y := by
   unfold startPull; rw [holds_pullIfNeeded]; cases sl <;> rfl
 
-theorem Grp.holds_stopPull' (g : Grp) (sl : Slot) (y : Sid) : g.stopPull'.1.holds sl y ↔ g.holds sl y := by
+theorem Grp.holds_stopPull' (code : Code) (g : Grp) (sl : Slot) (y : Sid) : (g.stopPull' code).1.holds sl y ↔ g.holds sl y := by
   unfold stopPull'; dsimp only; split
   · cases sl <;> rfl
-  · split <;> cases sl <;> rfl
+  · split
+    · cases sl <;> rfl
+    · split <;> cases sl <;> rfl
 
-theorem Grp.holds_stopPull (g : Grp) (sl : Slot) (y : Sid) : g.stopPull.1.holds sl y ↔ g.holds sl y := by
+theorem Grp.holds_stopPull (code : Code) (g : Grp) (sl : Slot) (y : Sid) : (g.stopPull code).1.holds sl y ↔ g.holds sl y := by
   unfold stopPull; rw [holds_stopPull']; cases sl <;> rfl
 
-theorem Grp.holds_kick (g : Grp) (k : KKind) (x : Sid) (sl : Slot) (y : Sid) : (g.kick k x).1.holds sl y ↔ g.holds sl y := by
+theorem Grp.holds_kick (code : Code) (g : Grp) (k : KKind) (x : Sid) (sl : Slot) (y : Sid) : (g.kick code k x).1.holds sl y ↔ g.holds sl y := by
   unfold kick
   cases k <;> dsimp only
   · split <;> rfl
